@@ -191,7 +191,7 @@ CHECKS = {
              "non-trivial = an ack below the current position and an out-of-range ack in the history (every concurrent case counts)",
         assumptions=HIST_ASSUME + ["acknowledgements of one vBucket are issued one at a time (stated by the property)",
                                    "acks fired while the stream is closed inside a rebalance: only 'no crash' is asserted (assigned range undefined there)"],
-        units=[rapid("TestC04_History", 5000, 300000), rapid("TestC04_Concurrent", 2000, 100000)],
+        units=[rapid("TestC04_History", 5000, 300000), rapid("TestC04_FileHistory", 1500, 100000), rapid("TestC04_Concurrent", 2000, 100000)],
         min_share=dict(any={"ack_below_position": ["histories", 0.3], "ack_out_of_range": ["histories", 0.1], "ack_old_in_range": ["histories", 0.06]}),
     ),
     "C05": dict(
